@@ -163,6 +163,21 @@ func verifProgress(measure func() int, fns ...string) {}
 func verifAllocBound(n int) { verifRTAllocLimit = n }
 func verifLoopBound(fnSuffix string, iterations int) {}
 
+// runs the operations concurrently; the replay binary is built with -race for harnesses
+// whose expected outcome is a data race
+func verifConcurrent(ops ...func()) {
+	for round := 0; round < 50; round++ {
+		done := make(chan struct{}, len(ops))
+		for _, op := range ops {
+			op := op
+			go func() { op(); done <- struct{}{} }()
+		}
+		for range ops {
+			<-done
+		}
+	}
+}
+
 // ---- JSON (native twin of the rope checker): encoding/json does the parsing ----
 type verifRTDoc struct {
 	valid bool
@@ -532,7 +547,10 @@ func newReplayBinary(pkgRel, hdir string) (*replayBinary, error) {
 	ovPath := filepath.Join(dir, "overlay.json")
 	os.WriteFile(ovPath, ovj, 0644)
 	rb := &replayBinary{dir: dir, bin: filepath.Join(dir, "replay.test"), pkgDir: filepath.Join(ld.repo, pkgRel)}
-	build := exec.Command("go", "test", "-c", "-tags", "verif", "-vet=off", "-overlay", ovPath, "-o", rb.bin, ".")
+	build := exec.Command("go", "test", "-c", "-race", "-tags", "verif", "-vet=off", "-overlay", ovPath, "-o", rb.bin, ".")
+	if !needRace(hdir) {
+		build = exec.Command("go", "test", "-c", "-tags", "verif", "-vet=off", "-overlay", ovPath, "-o", rb.bin, ".")
+	}
 	build.Dir = rb.pkgDir
 	build.Env = goEnv()
 	if out, err := build.CombinedOutput(); err != nil {
@@ -570,6 +588,9 @@ func (rb *replayBinary) Run(rf *ReplayFile, rfPath string) {
 			}
 		}
 	}
+	if strings.Contains(out, "WARNING: DATA RACE") {
+		outcome = "race"
+	}
 	if outcome == "" {
 		switch {
 		case strings.Contains(out, "out of memory") || strings.Contains(out, "cannot allocate memory"):
@@ -595,6 +616,18 @@ func (rb *replayBinary) Run(rf *ReplayFile, rfPath string) {
 	rf.Reproduced = outcomeMatches(rf.Expect, outcome)
 }
 
+// harness directories whose files call verifConcurrent are replayed under the race detector
+func needRace(hdir string) bool {
+	files, _ := filepath.Glob(filepath.Join(hdir, "*.go"))
+	for _, f := range files {
+		b, _ := os.ReadFile(f)
+		if strings.Contains(string(b), "verifConcurrent(") {
+			return true
+		}
+	}
+	return false
+}
+
 func outcomeMatches(v Violation, outcome string) bool {
 	switch v.Kind {
 	case "panic":
@@ -612,6 +645,8 @@ func outcomeMatches(v Violation, outcome string) bool {
 		return strings.HasPrefix(outcome, "exit:")
 	case "done":
 		return outcome == "done"
+	case "race":
+		return outcome == "race" || strings.Contains(outcome, "concurrent map")
 	}
 	return false
 }
